@@ -21,21 +21,22 @@ def pick(n, lo, hi):
 
 
 def decide(c, allowed):
-    """Concretise one schedule choice *lazily* from inside an untraced region: tracing is
-    resumed just for the comparisons, so the solver forks here and nowhere else.
-    Returns None when the value is none of the allowed ones (caller prunes the path)."""
-    if type(c) is int:
-        return c
-    if NoTracing is not None and not is_tracing():
-        with ResumedTracing():
-            for a in allowed:
-                if c == a:
-                    return a
-            return None
-    for a in allowed:
-        if c == a:
-            return a
-    return None
+    """Concretise one choice *lazily*: when called from inside an untraced region, tracing
+    is resumed just for the comparisons, so the solver forks here and nowhere else.
+    Returns None when the value is none of the allowed ones (caller prunes the path).
+    (Under tracing CrossHair makes type(symbolic) look like int, so tracing is tested first.)"""
+    if is_tracing():
+        for a in allowed:
+            if c == a:
+                return a
+        return None
+    if type(c) is int or type(c) is bool:
+        return c if c in allowed else None
+    with ResumedTracing():
+        for a in allowed:
+            if c == a:
+                return a
+        return None
 
 
 def pick_bool(b):
